@@ -1,6 +1,7 @@
 import AffVerif.Judge.C16
 import AffVerif.Judge.C12
 import AffVerif.Judge.C13
+import AffVerif.Judge.C02
 /-! The judge: reads one case per line on stdin, prints one verdict per line. -/
 open AV AV.Judge
 
@@ -12,6 +13,7 @@ def judgeLine (line : String) : String :=
     match kind with
     | "C16" => judgeC16
     | "C12" => judgeC12
+    | "C02" => judgeC02
     | "PANIC" => do
       let k ← tok; let _ ← tok; let _ ← tok
       let msg ← (do if (← atEnd) then pure "" else tok)
